@@ -4,7 +4,7 @@ import Curtsies.Generated.Keys
 namespace Curtsies
 
 def genTables : KeyTables :=
-  { curtsies := Generated.curtsiesNames, curses := Generated.cursesNames,
+  { curtsies := Generated.curtsiesNamesCps, curses := Generated.cursesNamesCps,
     prefixes := Generated.keymapPrefixes, maxSize := Generated.maxKeypressSize }
 
 end Curtsies
